@@ -240,6 +240,8 @@ def main(argv):
         texts.append(("groups", GG.gen(rng)[0]))
     for k in range(6 if quick else 40):
         texts.append(("shared-groups", GG.gen_shared(rng)[0]))
+    for k in range(4 if quick else 30):
+        texts.append(("shared-payload-groups", GG.gen_shared_payload(rng)[0]))
 
     # ---- determinism --------------------------------------------------------------------------
     accepted = []
